@@ -764,11 +764,40 @@ func MuLock(label string, l Locker) {
 	}
 
 	s.simLock(l, LockW, label)
-	l.Lock()
+
+	if !l.TryLock() {
+		s.blockForever(label)
+		l.Lock()
+	}
 
 	if s.race != nil && s.cur != nil {
 		s.race.acquire(s.cur, l)
 	}
+}
+
+// neverFree is the key of a lock of the simulator's table that is held by nobody who could release it.
+type neverFree struct{}
+
+// blockForever: the lock table says the lock is free (no task of this run holds it) but the real lock is taken.
+// No task can ever release it - what the task holds is a COPY of a mutex that was locked when it was copied (or a
+// mutex locked before the run began). A real program would hang right here; in the simulation the task is parked
+// on a lock that is never granted, so the run ends as stuck instead of blocking the worker outside the scheduler.
+func (s *Sim) blockForever(label string) {
+	t := s.cur
+	if t == nil {
+		panic("zzverifsim: root context: real lock is taken although the lock table says it is free: " + label)
+	}
+
+	s.mu.Lock()
+
+	key := neverFree{}
+	if s.locks[key] == nil {
+		s.locks[key] = &lockState{readers: map[*Task]int{}, writer: &Task{}}
+	}
+
+	s.mu.Unlock()
+
+	s.simLock(key, LockW, label+"(real-lock-taken-by-nobody:copied-mutex?)")
 }
 
 // MuTryLock replaces X.TryLock(): a scheduling point, then the attempt against the simulator's lock table
@@ -886,7 +915,11 @@ func MuRLock(label string, l RLocker) {
 	}
 
 	s.simLock(l, LockR, label)
-	l.RLock()
+
+	if !l.TryRLock() {
+		s.blockForever(label)
+		l.RLock()
+	}
 
 	if s.race != nil && s.cur != nil {
 		s.race.acquire(s.cur, l)
